@@ -157,11 +157,32 @@ def gen_cases(rng, tier, h):
         for i in range(per):
             style = "rand" if i % 5 == 4 else "grid"
             vals = []
+            if nm.startswith("ray_") and i % 6 == 3:
+                # structured hit: the ray passes through an interior point of the box at parameter t0 > 0 with a generic
+                # direction; tRange is chosen around the entry/exit parameters (finite upper bound below the exit, lower
+                # bound above the entry, default range ...)
+                n = 3 if nm == "ray_box3" else 2
+                lo = [rng.pick([-2.0, -1.0, 0.0, 8.0]) for _ in range(n)]
+                up = [l + rng.pick([1.0, 2.0, 3.0]) for l in lo]
+                d = [rng.pick([1.0, -1.0, 0.5, -2.0, 0.25, 3.0]) for _ in range(n)]
+                mid = [l + rng.pick([0.25, 0.5, 0.75]) * (u - l) for l, u in zip(lo, up)]
+                t0 = rng.pick([0.5, 1.0, 2.0, 4.0])
+                org = [m - t0 * k for m, k in zip(mid, d)]
+                tr = rng.pick([[0.0, INF], [0.0, t0], [0.0, t0 - 0.25], [t0, INF], [t0 + 0.125, 100.0], [0.0, t0 + 0.0625], [-5.0, 0.25]])
+                byname = dict(org=org, dir=d, b=lo + up, tr=tr)
+                for pn, t in params:
+                    vals += byname[pn]
+                c.append(nm + " " + " ".join(f2h(x) for x in vals))
+                if len(c) == 20:
+                    cases.append(c)
+                    c = []
+                continue
             if nm.startswith("ray_") and i % 6 == 1:
                 # structured axis-parallel ray: one axis k with direction exactly 0 and the origin in the lower face plane,
                 # the upper face plane, strictly inside or strictly outside of that axis' slab; the ray crosses the box
                 n = 3 if nm == "ray_box3" else 2
-                lo = [rng.pick([-2.0, -1.0, 0.0]) for _ in range(n)]
+                far = rng.pick([0.0, 0.0, 8.0, -100.0, 1000.0])   # scenes away from the origin too
+                lo = [far + rng.pick([-2.0, -1.0, 0.0]) for _ in range(n)]
                 up = [l + rng.pick([0.5, 1.0, 2.0, 3.0]) for l in lo]
                 k = rng.randrange(n)
                 org = [l + rng.pick([0.25, 0.5, 0.75]) * (u - l) for l, u in zip(lo, up)]
